@@ -101,6 +101,8 @@ enum DeOut {
     Ok(usize, usize, Vec<u32>, bool),
     Err(String),
     Panic,
+    /// in place only: the call failed and left the destination with dimensions that disagree with its cells
+    PlaceBroken(usize, usize, usize),
 }
 
 fn observe(r: Result<Result<TooDee<u32>, serde_json::Error>, ()>) -> DeOut {
@@ -112,6 +114,32 @@ fn observe(r: Result<Result<TooDee<u32>, serde_json::Error>, ()>) -> DeOut {
             let shape_ok = nc.checked_mul(nr) == Some(t.data().len()) && ((nc == 0) == (nr == 0));
             DeOut::Ok(nc, nr, t.data().to_vec(), shape_ok)
         }
+    }
+}
+
+fn in_place_priors() -> Vec<(&'static str, TooDee<u32>)> {
+    vec![("empty", TooDee::default()), ("2x2", TooDee::from_vec(2, 2, vec![901, 902, 903, 904])), ("4x3", TooDee::init(4, 3, 777u32))]
+}
+
+fn observe_in_place(text: &str, prior: TooDee<u32>) -> DeOut {
+    use serde::Deserialize;
+    let mut place = prior;
+    let r = guarded(|| {
+        let mut de = serde_json::Deserializer::from_str(text);
+        let r = <TooDee<u32> as Deserialize>::deserialize_in_place(&mut de, &mut place);
+        match r {
+            Ok(()) => de.end(),
+            Err(e) => Err(e),
+        }
+    });
+    let (nc, nr) = (place.num_cols(), place.num_rows());
+    let shape_ok = nc.checked_mul(nr) == Some(place.data().len()) && ((nc == 0) == (nr == 0));
+    match r {
+        Err(()) => DeOut::Panic,
+        Ok(Err(e)) => {
+            if shape_ok { DeOut::Err(e.to_string()) } else { DeOut::PlaceBroken(nc, nr, place.data().len()) }
+        }
+        Ok(Ok(())) => DeOut::Ok(nc, nr, place.data().to_vec(), shape_ok),
     }
 }
 
@@ -132,6 +160,13 @@ fn run_doc(case: &Value) -> Vec<Fail> {
         transports.push((format!("from_str{tag}"), observe(guarded(|| serde_json::from_str::<TooDee<u32>>(&text)))));
         transports.push((format!("from_slice{tag}"), observe(guarded(|| serde_json::from_slice::<TooDee<u32>>(text.as_bytes())))));
         transports.push((format!("from_reader{tag}"), observe(guarded(|| serde_json::from_reader::<_, TooDee<u32>>(text.as_bytes())))));
+        if !escaped {
+            // Deserialize::deserialize_in_place (what containers such as Vec<TooDee<T>> call when reloading): the outcome must
+            // not depend on what the destination held before
+            for (pn, prior) in in_place_priors() {
+                transports.push((format!("in_place[{pn}]"), observe_in_place(&text, prior)));
+            }
+        }
         if !escaped && !has_duplicate_keys(doc) {
             // a value tree cannot hold duplicate keys
             if let Ok(v) = serde_json::from_str::<Value>(&text) {
@@ -142,6 +177,7 @@ fn run_doc(case: &Value) -> Vec<Fail> {
     for (name, out) in transports {
         match out {
             DeOut::Panic => fails.push(Fail::new(0, "de.panic", json!({"transport": name, "doc": render(doc, false)}))),
+            DeOut::PlaceBroken(nc, nr, len) => fails.push(Fail::new(0, "de.place_broken", json!({"transport": name, "doc": render(doc, false), "dims": [nc, nr], "len": len}))),
             DeOut::Err(e) => {
                 if exp_ok && !may_reject {
                     fails.push(Fail::new(0, "de.rejected", json!({"transport": name, "doc": render(doc, false), "error": e})));
@@ -243,6 +279,17 @@ fn roundtrip_all<E: RtElem>(t: &TooDee<E>, fails: &mut Vec<Fail>) {
         check(&format!("{sname}->from_reader"), guarded(|| serde_json::from_reader::<_, TooDee<E>>(&text[..])), fails);
     }
     check("to_value->from_value", guarded(|| serde_json::from_value::<TooDee<E>>(val.clone())), fails);
+    // reloading in place, into destinations that are empty, smaller and larger than the document
+    for (pn, pc, pr) in [("empty", 0usize, 0usize), ("1x1", 1, 1), ("larger", t.num_cols() + 1, t.num_rows() + 2)] {
+        let prior: TooDee<E> = if pc == 0 { TooDee::default() } else { TooDee::init(pc, pr, E::of(7)) };
+        let r = guarded(|| {
+            use serde::Deserialize;
+            let mut place = prior;
+            let mut de = serde_json::Deserializer::from_str(&s);
+            <TooDee<E> as Deserialize>::deserialize_in_place(&mut de, &mut place).and_then(|()| de.end()).map(|()| place)
+        });
+        check(&format!("to_string->in_place[{pn}]"), r, fails);
+    }
     let v2: Value = serde_json::from_str(&s).unwrap();
     check("to_string->Value->from_value", guarded(|| serde_json::from_value::<TooDee<E>>(v2)), fails);
 }
@@ -292,6 +339,14 @@ fn run_roundtrip(case: &Value) -> Vec<Fail> {
                     let s = serde_json::to_string(&v).unwrap();
                     let val = serde_json::to_value(&v).unwrap();
                     outs.push(("view:to_string->from_str".into(), guarded(|| serde_json::from_str(&s))));
+                    if !big {
+                        outs.push(("view:to_string->in_place[larger]".into(), guarded(|| {
+                            use serde::Deserialize;
+                            let mut place: TooDee<u32> = TooDee::init(nc + 2, nr + 1, 777u32);
+                            let mut de = serde_json::Deserializer::from_str(&s);
+                            <TooDee<u32> as Deserialize>::deserialize_in_place(&mut de, &mut place).and_then(|()| de.end()).map(|()| place)
+                        })));
+                    }
                     outs.push(("view:to_string->from_reader".into(), guarded(|| serde_json::from_reader(s.as_bytes()))));
                     outs.push(("view:to_value->from_value".into(), guarded(|| serde_json::from_value(val))));
                 }
